@@ -293,6 +293,9 @@ func (t *Target) rewrite(req *httputil.ProxyRequest) {
 	routingContext := RoutingContext(req.In)
 	if routingContext != nil {
 		req.Out.URL.Path = strings.TrimPrefix(req.Out.URL.Path, routingContext.MatchedPrefix)
+		// Keep the client's own encoding of the remaining path (if any), so
+		// that escaped characters such as %2F are not decoded or re-encoded.
+		req.Out.URL.RawPath = strings.TrimPrefix(req.Out.URL.RawPath, routingContext.MatchedPrefix)
 	}
 
 	// Ensure query params are preserved exactly, including those we could not
